@@ -62,6 +62,10 @@ type refPath struct {
 	// MaxIfPerAS is the largest number of interfaces of one AS in Ifs;
 	// MaxVisits the largest number of separate visits of one AS.
 	MaxIfPerAS, MaxVisits int
+	// Unencodable: a used segment part has more than 63 hop fields (6-bit
+	// SegLen) or the path more than 64 (6-bit CurrHF); no SCION path header can
+	// express the join.
+	Unencodable bool
 	key             string
 }
 
@@ -246,6 +250,17 @@ func finish(kinds, join string, segs ...refSeg) *refPath {
 				p.MTU = min(p.MTU, e.HopEntry.IngressMTU)
 			}
 		}
+	}
+
+	total := 0
+	for _, s := range segs {
+		total += len(s.Hops)
+		if len(s.Hops) > 63 {
+			p.Unencodable = true
+		}
+	}
+	if total > 64 {
+		p.Unencodable = true
 	}
 
 	// Visits.
